@@ -14,7 +14,14 @@
                                         or EXACTLY one no-service callback (request) /
                                         nothing (notification)
      "an instance of that type on a node in working state"   working_instance
-     "after any sequence of view updates"                    last_view h, reg_at h, dflt_at h *)
+     "after any sequence of view updates"                    last_view h, dflt_at h
+     "the route function registered for that service type"   fns_at h: the last Register for the
+                                                              type, by an OReg, by a rule that ran
+                                                              or by another goroutine while calls
+                                                              were in flight; for call i of an
+                                                              OCalls: the functions registered
+                                                              when call i is made (Model.sim)
+     "which node asks"                                       self_at h - appears in no clause *)
 From Cell2V Require Import Common.Tac Common.ListX Common.AList C07.Model.
 
 (* ---- boolean equalities on observables ---- *)
@@ -280,7 +287,7 @@ Section At.
     let reg := reg_in interp tab in
     let dflt := dflt_in interp d v in
     match o, b with
-    | (OReg _ _ | ODefault _ | OUpdate _ | OSelf _), BUnit => true
+    | (OReg _ _ | ODefault _ | OUpdate _ | OSelf _ _ _), BUnit => true
     | ORoute ty p, BName n => n =? route reg dflt p ty
     | ORoutePID ty p, BPid po =>
         match named_by_rule reg dflt ty p, po with
@@ -328,7 +335,7 @@ Section Hist.
   Definition dstep (d : dmode F) (o : op F) : dmode F := match o with ODefault d' => d' | _ => d end.
   Definition dflt_at (h : list (op F)) : dmode F := fold_left dstep h DApp.
 
-  Definition sstep (a : Z) (o : op F) : Z := match o with OSelf a' => a' | _ => a end.
+  Definition sstep (a : Z) (o : op F) : Z := match o with OSelf a' _ _ => a' | _ => a end.
   Definition self_at (h : list (op F)) : Z := fold_left sstep h (-1).
 
   (* the functions registered after h: Register is called by OReg, by rules that ran during a
@@ -362,7 +369,7 @@ Section Hist.
 
   (* operations that only ask for a routing decision *)
   Definition is_decision (o : op F) : bool :=
-    match o with OReg _ _ | ODefault _ | OUpdate _ | OSelf _ => false | _ => true end.
+    match o with OReg _ _ | ODefault _ | OUpdate _ | OSelf _ _ _ => false | _ => true end.
 
   Fixpoint monitor_from (hist : list (op F)) (ops : list (op F)) (bs : list obs) : bool :=
     match ops, bs with
